@@ -62,6 +62,17 @@ Section TotalForce.
     | Some (lx, ly, lz) => let '(dx, dy, dz) := d in (min_image1 lx dx, min_image1 ly dy, min_image1 lz dz)
     end.
 
+  (* quaternions; quaternion::rotation_matrix() and conjugate(): rotation::matrix() is rotation_matrix of the optimal
+     quaternion, rotation::inverse().matrix() that of its conjugate *)
+  Definition quat : Type := (T * T * T * T)%type.
+  Definition qconj (q : quat) : quat := let '(q0, q1, q2, q3) := q in (q0, nneg O q1, nneg O q2, nneg O q3).
+  Definition qnorm2 (q : quat) : T := let '(q0, q1, q2, q3) := q in q0 * q0 + q1 * q1 + q2 * q2 + q3 * q3.
+  Definition rotmat (q : quat) : mat :=
+    let '(q0, q1, q2, q3) := q in
+    ((q0 * q0 + q1 * q1 - q2 * q2 - q3 * q3, two * (q1 * q2 - q0 * q3), two * (q0 * q2 + q1 * q3)),
+     (two * (q0 * q3 + q1 * q2), q0 * q0 - q1 * q1 + q2 * q2 - q3 * q3, two * (q2 * q3 - q0 * q1)),
+     (two * (q1 * q3 - q0 * q2), two * (q0 * q1 + q2 * q3), q0 * q0 - q1 * q1 - q2 * q2 + q3 * q3)).
+
   Definition tsum (l : list T) : T := fold_right (fun x acc => x + acc) zero l.
   Definition vsum (l : list vec) : vec := fold_right vadd vzero l.
   Definition ofnat (n : nat) : T := nofZ O (Z.of_nat n).
@@ -129,10 +140,10 @@ Section TotalForce.
     (* extra = the permuted copies of the reference positions made by the atomPermutation lines of rmsd
        (symmetry-adapted RMSD): value, gradients and inverse gradients use the copy closest to the positions *)
     (* the default fit of rmsd / eigenvector: centred and optimally rotated onto the reference positions.
-       rotf gives rotation::matrix() for the positions of a step and jdf the Jacobian derivative computed from the
+       rotf gives the optimal quaternion rotation::q for the positions of a step (the matrices are computed from it) and jdf the Jacobian derivative computed from the
        derivatives of the optimal rotation: both are INPUTS of the model (not modelled), taken from the implementation *)
-    | CRmsdRot (ids : list nat) (refs : list vec) (extra : list (list vec)) (rotf : field -> mat) (jdf : field -> T)
-    | CEigenvectorRot (ids : list nat) (refs : list vec) (evec : list vec) (rotf : field -> mat) (jdf : field -> T).
+    | CRmsdRot (ids : list nat) (refs : list vec) (extra : list (list vec)) (rotf : field -> quat) (jdf : field -> T)
+    | CEigenvectorRot (ids : list nat) (refs : list vec) (evec : list vec) (rotf : field -> quat) (jdf : field -> T).
 
     (* atoms a component depends on *)
     Definition cvc_atoms (c : cvc) : list nat :=
@@ -305,8 +316,9 @@ Section TotalForce.
       | CGyration ids => gyr_value ids
       | CRmsd ids refs extra center => rmsd_value ids (rmsd_best ids refs extra center) center
       | CEigenvector ids refs evec center => dot_list (vsub_list (frame_pos ids center) refs) (eig_vec evec)
-      | CRmsdRot ids refs extra rotf _ => rmsdrot_value ids refs (rotf pos) (rmsdrot_best ids refs extra (rotf pos))
-      | CEigenvectorRot ids refs evec rotf _ => dot_list (vsub_list (rot_frame ids refs (rotf pos)) refs) (eig_vec evec)
+      | CRmsdRot ids refs extra rotf _ =>
+          let R := rotmat (rotf pos) in rmsdrot_value ids refs R (rmsdrot_best ids refs extra R)
+      | CEigenvectorRot ids refs evec rotf _ => dot_list (vsub_list (rot_frame ids refs (rotmat (rotf pos))) refs) (eig_vec evec)
       end.
 
     (* ------------------------------------------------------------------ forward path:
@@ -359,8 +371,9 @@ Section TotalForce.
           fadd (aapply ids g fc) (aapply ids (fit_grads (length ids) center g) fc)
       (* apply_colvar_force with f_ag_rotate: forces rotated back with the inverse rotation; no fit gradients *)
       | CRmsdRot ids refs extra rotf _ =>
-          aapply ids (map (mtvmul (rotf pos)) (rmsdrot_grads ids refs (rotf pos) (rmsdrot_best ids refs extra (rotf pos)))) fc
-      | CEigenvectorRot ids refs evec rotf _ => aapply ids (map (mtvmul (rotf pos)) (eig_vec evec)) fc
+          let R := rotmat (rotf pos) in
+          aapply ids (map (mvmul (rotmat (qconj (rotf pos)))) (rmsdrot_grads ids refs R (rmsdrot_best ids refs extra R))) fc
+      | CEigenvectorRot ids refs evec rotf _ => aapply ids (map (mvmul (rotmat (qconj (rotf pos)))) (eig_vec evec)) fc
       end.
 
     (* ------------------------------------------------------------------ calc_force_invgrads *)
@@ -402,9 +415,10 @@ Section TotalForce.
           adot ids (map (vscale (eig_invnorm2 evec)) (eig_vec evec)) F
       (* read_total_forces rotates the atomic forces into the frame of the gradients *)
       | CRmsdRot ids refs extra rotf _ =>
-          adot ids (rmsdrot_grads ids refs (rotf pos) (rmsdrot_best ids refs extra (rotf pos))) (frot (rotf pos) F) * ofnat (length ids)
+          let R := rotmat (rotf pos) in
+          adot ids (rmsdrot_grads ids refs R (rmsdrot_best ids refs extra R)) (frot R F) * ofnat (length ids)
       | CEigenvectorRot ids refs evec rotf _ =>
-          adot ids (map (vscale (eig_invnorm2 evec)) (eig_vec evec)) (frot (rotf pos) F)
+          adot ids (map (vscale (eig_invnorm2 evec)) (eig_vec evec)) (frot (rotmat (rotf pos)) F)
       end.
 
     (* ------------------------------------------------------------------ calc_Jacobian_derivative *)
